@@ -339,7 +339,7 @@ class C05(vlib.Driver):
                                       "pop": [{"index": 3 * i + 1, "fitness": f} for i, f in enumerate(fits)],
                                       "gens": [{"draws": [list(x) for x in tuples] + self.gen_draws(rng, n, t, 2), "newfit": []}]})
         # B. seeded single selections on real DQN agents
-        nb = 80 if quick else 300
+        nb = 80 if quick else 200
         for _ in range(nb):
             n = rng.choice([1, 2, 2, 3, 3, 4, 5, 6, 8]) if quick else rng.choice([1, 2, 3, 4, 5, 6, 8, 10, 12])
             p = rng.choice([1, 2, 3, n, n, n, n + 1, 8]) if quick else rng.choice([1, 2, n, n, n + 2, 12])
@@ -349,14 +349,14 @@ class C05(vlib.Driver):
                           "pop": [{"index": ix, "fitness": f} for ix, f in zip(self.rand_indices(rng, n), self.rand_fitness(rng, n, w))],
                           "gens": [{"draws": self.gen_draws(rng, n, t, p + 2), "newfit": []}]})
         # C. chains of generations on real agents, half of them through tournament_selection_and_mutation
-        nc, G = (4, 6) if quick else (12, 15)
+        nc, G = (4, 6) if quick else (8, 10)
         for ci in range(nc):
             n = rng.choice([2, 3, 4, 6])
             p = rng.choice([n, n, 4, 6])
             t, w = rng.randint(1, 4), rng.randint(1, 4)
             cases.append(self.chain_case(rng, "dqn", "utils" if ci % 2 == 0 else "select", n, p, t, w, rng.random() < 0.7, G))
         # D. long chains, light agents (sizes where NumPy switches sort algorithm in the thorough tier)
-        nd, G = (16, 14) if quick else (60, 15)
+        nd, G = (16, 14) if quick else (40, 12)
         for ci in range(nd):
             n = rng.randint(2, 8) if quick else rng.choice([2, 5, 8, 12, 16, 17, 20, 24])
             p = rng.choice([n, n, max(1, n - 1), n + 1])
@@ -364,7 +364,7 @@ class C05(vlib.Driver):
             cases.append(self.chain_case(rng, "lite", "select", n, p, t, w, rng.random() < 0.7, G))
         # E. non-dyadic fitness values (order checked against exact rationals per case), light agents;
         #    populations beyond 16 where the sort is not an insertion sort
-        ne = 60 if quick else 800
+        ne = 60 if quick else 450
         made = 0
         while made < ne:
             n = rng.choice([2, 3, 5, 8, 12, 17, 24]) if quick else rng.choice([2, 3, 5, 8, 12, 17, 24, 33, 48])
@@ -385,7 +385,7 @@ class C05(vlib.Driver):
         for kind in kinds:
             heavy = kind in ("maddpg", "matd3")
             extra = kind in ("td3", "cqn", "ppo", "matd3")      # more algorithms: one selection each in the quick tier
-            for rep in range((1 if heavy or extra else 2) if quick else (3 if heavy else 8)):
+            for rep in range((1 if heavy or extra else 2) if quick else (2 if heavy else 4)):
                 n = rng.choice([2, 3]) if heavy else rng.choice([2, 3, 4])
                 p = rng.choice([n, n + 1, 2]) if not heavy else rng.choice([2, 3])
                 t, w = rng.randint(1, 3), rng.randint(1, 3)
@@ -397,21 +397,21 @@ class C05(vlib.Driver):
                 continue
             n = 2 if heavy else 3
             c = self.chain_case(rng, kind, "utils" if kind in ("rsnorm", "ucb") else "select", n, n, rng.randint(1, 3), rng.randint(1, 2),
-                                True, 3 if quick else 6)
+                                True, 3 if quick else 4)
             c["ftype"] = "np"
             cases.append(c)
         # G'. populations that were saved and loaded back before the selection (a resumed run)
         for kind in ("dqn", "ucb"):
-            for rep in range(1 if quick else 4):
+            for rep in range(1 if quick else 2):
                 n, p, t, w = 3, rng.choice([3, 4]), 2, rng.randint(1, 3)
                 c = self.chain_case(rng, kind, "select", n, p, t, w, True, 2 if quick else 4)
                 c["reload"] = True
                 cases.append(c)
         # H. clone -> mutate -> clone chains: real architecture / parameter / hyper-parameter mutations between the
         #    selections (tournament_selection_and_mutation as the training loops call it)
-        for ci in range(2 if quick else 8):
+        for ci in range(2 if quick else 4):
             c = self.chain_case(rng, "dqn" if ci % 2 == 0 else "rsnorm", "utils", 3, rng.choice([3, 4]), 2, rng.randint(1, 3),
-                                rng.random() < 0.7, 5 if quick else 10)
+                                rng.random() < 0.7, 5 if quick else 6)
             c["mut"] = "real"
             cases.append(c)
         # E'. near-ties: windows whose exact means are equal or 1 ulp apart while the float64 means may differ
@@ -420,7 +420,7 @@ class C05(vlib.Driver):
                 [0.2, 0.2, float(np.nextafter(0.2, 1))], [0.7, 0.1, -0.2], [0.7, -0.2, 0.1]]
         # (catastrophic cancellation such as [1e16, 1.0, -1e16], float mean 0.0 vs exact 1/3, is outside the claim:
         #  observed scores are accepted only within relative 2^-40 of the exact window mean)
-        for rep in range(12 if quick else 120):
+        for rep in range(12 if quick else 60):
             n = rng.choice([2, 3, 4, 6, 10])
             fits = [[rng.choice(self.VALS)] * rng.randint(0, 2) + list(rng.choice(near)) for _ in range(n)]
             t = rng.randint(1, 4)
@@ -428,6 +428,44 @@ class C05(vlib.Driver):
             cases.append({"kind": "lite", "via": "select", "cfg": {"t": t, "e": rng.random() < 0.5, "p": p, "w": 3},
                           "pop": [{"index": ix, "fitness": f} for ix, f in zip(self.rand_indices(rng, n), fits)],
                           "gens": [{"draws": self.gen_draws(rng, n, t, p + 2), "newfit": []}]})
+        # R. the same selector object on populations it did not produce (state must not persist across calls):
+        #    newcomers with the next free / higher indices replacing members between generations, a second population
+        #    with its own index range (higher, lower, overlapping), the very same population selected twice in a row,
+        #    a raising call (empty population) followed by further use.  Boundary-complete over elitism x where the
+        #    fittest agent's index falls relative to what the selector handed out before.
+        for kind in (["lite", "lite", "dqn", "rsnorm"] if quick else ["lite"] * 6 + ["dqn", "rsnorm", "ucb", "ddpg"]):
+            for elit in (True, False):
+                n = p = 4
+                t, w = 2, rng.randint(1, 2)
+                first = [{"index": i, "fitness": [float(rng.choice([1, 2, 3]))] * w} for i in range(n)]
+                gens = [{"draws": self.gen_draws(rng, n, t, p + 2), "newfit": [[rng.choice(self.VALS)] for _ in range(p)]}
+                        for _ in range(3)]
+                # after 3 generations the selector has handed out n + 3*(p - elit) - 1 as its highest index
+                top = max(a["index"] for a in first) + 3 * (p - (1 if elit else 0))
+                for off in (1, 2, p - 1, p, p + 3):       # the fittest newcomer's index relative to that
+                    c = {"kind": kind, "via": "select", "cfg": {"t": t, "e": elit, "p": p, "w": w}, "pop": first,
+                         "gens": copy.deepcopy(gens) + [
+                             {"inject": [{"pos": rng.randrange(n), "index": top + off, "fitness": [50.0] * w}],
+                              "draws": self.gen_draws(rng, n, t, p + 2), "newfit": [[1.0]] * p},
+                             {"draws": self.gen_draws(rng, n, t, p + 2), "newfit": []}]}
+                    cases.append(c)
+                    if kind != "lite":
+                        break
+                for base in ((top + 1, "above"), (0, "restart"), (top - 2, "overlap")):
+                    second = [{"index": base[0] + i, "fitness": [float(i)] * w} for i in range(n)]   # fittest has the highest index
+                    c = {"kind": kind, "via": "select", "cfg": {"t": t, "e": elit, "p": p, "w": w}, "pop": first,
+                         "gens": copy.deepcopy(gens[:2]) + [
+                             {"newpop": second, "draws": self.gen_draws(rng, n, t, p + 2), "newfit": [[1.0]] * p},
+                             {"keep": True, "draws": self.gen_draws(rng, n, t, p + 2), "newfit": []},
+                             {"draws": self.gen_draws(rng, n, t, p + 2), "newfit": []}]}
+                    cases.append(c)
+                    if kind != "lite":
+                        break
+        # a raising call followed by further use of the same selector
+        cases.append({"kind": "lite", "via": "select", "cfg": {"t": 2, "e": True, "p": 3, "w": 1}, "pop": [],
+                      "gens": [{"draws": self.gen_draws(rng, 1, 2, 5), "newfit": []},
+                               {"newpop": [{"index": 7, "fitness": [1.0]}, {"index": 9, "fitness": [2.0]}],
+                                "draws": self.gen_draws(rng, 2, 2, 5), "newfit": []}]})
         # F. the guard: an empty population is rejected by the code and by the model
         cases.append({"kind": "lite", "via": "select", "cfg": {"t": 2, "e": True, "p": 3, "w": 1}, "pop": [],
                       "gens": [{"draws": self.gen_draws(rng, 1, 2, 5), "newfit": []}]})
@@ -590,6 +628,16 @@ class C05(vlib.Driver):
         gens_obs = []
         orig = np.random.randint
         for g in case["gens"]:
+            # the SAME selector object is used for every generation of the case.  Between two calls the caller may
+            # hand it another population (a second run / a restored checkpoint) or replace members by newcomers
+            # carrying the next free indices: the selector must not rely on anything it remembered
+            if g.get("newpop") is not None:
+                pop = self.make_pop({"kind": case["kind"], "pop": g["newpop"], "ftype": case.get("ftype", "float")})
+            for inj in g.get("inject", []):
+                sub = self.make_pop({"kind": case["kind"], "ftype": case.get("ftype", "float"),
+                                     "pop": [{"index": 0, "fitness": [0.0]}] * inj["pos"] + [{"index": inj["index"], "fitness": inj["fitness"]}]})
+                pop = list(pop)
+                pop[inj["pos"]] = sub[inj["pos"]]
             for i, ag in enumerate(pop):
                 setattr(ag, TAG, i)
             pre = [snapshot(a) for a in pop]
@@ -663,6 +711,8 @@ class C05(vlib.Driver):
             rec["old_list_changed"] = pop_ids != [id(a) for a in pop]
             if err is not None:
                 gens_obs.append(rec)
+                if not pre:
+                    continue       # the empty population was rejected (the guard); the selector is used again below
                 break
             is_list = isinstance(new_pop, list)
             real_mut = case["via"] == "utils" and case.get("mut") == "real"
@@ -723,7 +773,8 @@ class C05(vlib.Driver):
                 nf = g["newfit"][i] if i < len(g["newfit"]) else []
                 for x in nf:
                     a.fitness.append(self.as_type(x, case.get("ftype", "float")))
-            pop = list(new_pop)
+            if not g.get("keep"):          # keep: the caller selects from the very same population again
+                pop = list(new_pop)
             if "mutation_error" in rec:
                 break
         return {"gens": gens_obs}
@@ -905,6 +956,13 @@ class C05(vlib.Driver):
             labs.append("branch:max-index-first")
         if any(a["index"] < 0 for a in case["pop"]):
             labs.append("negative-index")
+        for g in case["gens"]:
+            if g.get("inject"):
+                labs.append("selector-reuse:newcomer-with-higher-index")
+            if g.get("newpop") is not None:
+                labs.append("selector-reuse:another-population")
+            if g.get("keep"):
+                labs.append("selector-reuse:same-population-twice")
         for gi, (g, rec) in enumerate(zip(case["gens"], obs["gens"])):
             pre = rec["pre"]
             if not pre or rec["error"] is not None:
